@@ -19,6 +19,26 @@ func (c *Ctx) idSpec() *Spec {
 	p := c.P
 	return &Spec{
 		Event: func(in ssa.Instruction, fr *Frame) string {
+			if mu, isMU := in.(*ssa.MapUpdate); isMU {
+				// h[key] = values, written directly into a header map
+				if QualType(namedOf(mu.Map.Type())) != "http.Header" {
+					return ""
+				}
+				side := "?"
+				d := p.Desc(mu.Map, fr)
+				switch {
+				case strings.Contains(d, "http.Request.Header"):
+					side = "req"
+				case strings.Contains(d, "ResponseWriter).Header("):
+					side = "resp"
+				}
+				// `[]string{v}`: a fresh array of one element sliced in full owns its storage; any other
+				// slice may share spare capacity with a neighbour, which a later Header.Add writes into
+				if elem := singleFreshElement(mu.Value); elem != nil {
+					return side + ".Set(" + p.Desc(mu.Key, fr) + ")=" + p.Desc(elem, fr)
+				}
+				return side + ".Alias(" + p.Desc(mu.Key, fr) + ")=" + p.Desc(mu.Value, fr)
+			}
 			ci, ok := in.(ssa.CallInstruction)
 			if !ok {
 				return ""
@@ -99,6 +119,10 @@ func checkC16(c *Ctx) {
 		if i := strings.LastIndex(l, ")="); i >= 0 {
 			l = l[:i]
 		}
+		// the canonical spelling of the configured name is the configured name
+		if strings.HasPrefix(l, "call:net/http.CanonicalHeaderKey(") && strings.HasSuffix(l, ")") {
+			l = strings.TrimSuffix(strings.TrimPrefix(l, "call:net/http.CanonicalHeaderKey("), ")")
+		}
 		return l
 	}
 	for _, spec := range [][3]string{{"request-id", "config.RequestIDConfig.Enabled", "RequestHeaderName("}, {"trace-id", "config.TraceConfig.Enabled", "TraceHeaderName("}} {
@@ -129,6 +153,11 @@ func checkC16(c *Ctx) {
 						resp = append(resp, it)
 					} else {
 						req = append(req, it)
+					}
+				}
+				for _, it := range resp {
+					if strings.HasPrefix(it.Label, "resp.Alias(") {
+						return "the slice stored into the response header map is not a fresh one-element slice (" + firstN(strings.TrimPrefix(it.Label, "resp.Alias("), 120) + "): it can share spare capacity with another header's values, so a value the backend adds to one identifier header overwrites the other"
 					}
 				}
 				if len(resp) != 1 || !strings.HasPrefix(resp[0].Label, "resp.Set(") {
@@ -171,9 +200,8 @@ func checkC16(c *Ctx) {
 				}
 				// same SSA value on both sides on the generated path
 				if !supplied {
-					a := req[0].Instr.(ssa.CallInstruction).Common().Args[2]
-					b := resp[0].Instr.(ssa.CallInstruction).Common().Args[2]
-					same := a == b
+					a, b := headerValueOf(req[0].Instr), headerValueOf(resp[0].Instr)
+					same := a != nil && a == b
 					if phi, ok := b.(*ssa.Phi); ok {
 						for _, e := range phi.Edges {
 							if e == a {
@@ -366,6 +394,219 @@ func (c *Ctx) outermostMiddleware() {
 	}
 }
 
+// chainGuardsEveryRequest: with plugins configured, every request reaches the balancer through the
+// chain.  In the handler builder the balancer (as an http.Handler) is used for exactly two things — as
+// the base BuildChain wraps, and as the handler itself on the path without plugins — and what the
+// builder hands on (to the context middleware, to its caller) is, with plugins, BuildChain's own
+// result: nothing sits between them that could route a request around the chain.
+func (c *Ctx) chainGuardsEveryRequest() {
+	p := c.P
+	rule, construct := "chain-guards-every-request", "cmd/helios.buildHandler"
+	bh := c.handlerBuilder()
+	if bh == nil {
+		c.Missing(rule, construct)
+		return
+	}
+	var build *ssa.Call
+	var baseArg ssa.Value
+	for _, ci := range callsIn(bh) {
+		if call, ok := ci.(*ssa.Call); ok && strings.HasSuffix(CalleeName(ci), "plugins.BuildChain") {
+			build = call
+			if a := call.Call.Args; len(a) >= 2 {
+				baseArg = a[len(a)-1]
+			}
+		}
+	}
+	if build == nil {
+		// the chain is applied by a helper of the command (`wrapWithPlugins(cfg, next)`): the helper
+		// must hand on BuildChain's result built around its own parameter, and the builder must give
+		// it the balancer; from there on the helper's call plays BuildChain's role
+		for _, ci := range callsIn(bh) {
+			call, ok := ci.(*ssa.Call)
+			h := StaticFn(ci)
+			if !ok || h == nil || h.Blocks == nil || fnPkg(h) != fnPkg(bh) {
+				continue
+			}
+			for _, c2 := range callsIn(h) {
+				inner, ok := c2.(*ssa.Call)
+				if !ok || !strings.HasSuffix(CalleeName(c2), "plugins.BuildChain") {
+					continue
+				}
+				args := inner.Call.Args
+				pm, isParam := stripConv(args[len(args)-1]).(*ssa.Parameter)
+				if !isParam {
+					continue
+				}
+				handsOn := true
+				instrsOf(h, func(in ssa.Instruction) {
+					if r, isRet := in.(*ssa.Return); isRet && len(r.Results) == 2 && isConstNil(r.Results[1]) {
+						ex, isEx := stripConv(r.Results[0]).(*ssa.Extract)
+						if !isEx || ex.Tuple != ssa.Value(inner) || ex.Index != 0 {
+							if stripConv(r.Results[0]) != ssa.Value(pm) { // the no-plugin path may hand back its parameter
+								handsOn = false
+							}
+						}
+					}
+				})
+				if handsOn {
+					build = call
+					for j, hp := range h.Params {
+						if hp == pm && j < len(call.Call.Args) {
+							baseArg = call.Call.Args[j]
+						}
+					}
+				}
+			}
+		}
+	}
+	if build == nil {
+		c.Missing(rule, construct+"/BuildChain")
+		return
+	}
+	isLB := func(v ssa.Value) bool {
+		v = stripConv(v)
+		if mi, ok := v.(*ssa.MakeInterface); ok {
+			v = mi.X
+		}
+		return QualType(namedOf(v.Type())) == "loadbalancer.LoadBalancer"
+	}
+	var bad []string
+	// (1) the base of the chain is the balancer itself
+	if baseArg == nil || !isLB(baseArg) {
+		// (the base may be a variable initialised with the balancer)
+		var os []ssa.Value
+		if baseArg != nil {
+			seen := map[ssa.Value]bool{}
+			var walk func(v ssa.Value)
+			walk = func(v ssa.Value) {
+				if v == nil || seen[v] {
+					return
+				}
+				seen[v] = true
+				if ph, ok := v.(*ssa.Phi); ok {
+					for _, e := range ph.Edges {
+						walk(e)
+					}
+					return
+				}
+				os = append(os, v)
+			}
+			walk(baseArg)
+		}
+		allLB := len(os) > 0
+		for _, o := range os {
+			if !isLB(o) {
+				allLB = false
+			}
+		}
+		if !allLB {
+			bad = append(bad, p.InstrPos(build)+": the chain is not built around the load balancer itself")
+		}
+	}
+	// (2) every other use of the balancer as a handler is the no-plugin fallback: a φ/variable that
+	//     merges it with BuildChain's result, or the argument of the context middleware
+	var chained ssa.Value
+	if refs := build.Referrers(); refs != nil {
+		for _, r := range *refs {
+			if ex, ok := r.(*ssa.Extract); ok && ex.Index == 0 {
+				chained = ex
+			}
+		}
+	}
+	var origins func(v ssa.Value, seen map[ssa.Value]bool, out *[]ssa.Value)
+	origins = func(v ssa.Value, seen map[ssa.Value]bool, out *[]ssa.Value) {
+		if v == nil || seen[v] {
+			return
+		}
+		seen[v] = true
+		switch x := v.(type) {
+		case *ssa.Phi:
+			for _, e := range x.Edges {
+				origins(e, seen, out)
+			}
+			return
+		case *ssa.ChangeInterface:
+			origins(x.X, seen, out)
+			return
+		case *ssa.UnOp:
+			if a, ok := x.X.(*ssa.Alloc); ok && x.Op == token.MUL {
+				if refs := a.Referrers(); refs != nil {
+					for _, r := range *refs {
+						if st, ok := r.(*ssa.Store); ok && st.Addr == ssa.Value(a) {
+							origins(st.Val, seen, out)
+						}
+					}
+				}
+				return
+			}
+		}
+		*out = append(*out, v)
+	}
+	checkHandedOn := func(v ssa.Value, at ssa.Instruction, what string) {
+		var os []ssa.Value
+		origins(v, map[ssa.Value]bool{}, &os)
+		for _, o := range os {
+			if o == chained || isLB(o) {
+				continue
+			}
+			if call, ok := o.(*ssa.Call); ok && strings.Contains(CalleeName(call), "RequestContextMiddleware") {
+				continue
+			}
+			if call, ok := o.(*ssa.Call); ok {
+				// the application of the context middleware: dyn[RequestContextMiddleware(cfg)](h)
+				if strings.Contains(p.Desc(call.Call.Value, nil), "RequestContextMiddleware(") {
+					continue
+				}
+			}
+			bad = append(bad, p.InstrPos(at)+": "+what+" can be "+firstN(p.Desc(o, nil), 160)+", which is neither the chain BuildChain returned nor the bare balancer: a handler in between can hand requests to the balancer without running the chain (a rejecting plugin never sees them)")
+		}
+	}
+	n := 0
+	instrsOf(bh, func(in ssa.Instruction) {
+		switch x := in.(type) {
+		case *ssa.Return:
+			if len(x.Results) == 2 && isConstNil(x.Results[1]) {
+				n++
+				// look through the context middleware application
+				v := x.Results[0]
+				var os []ssa.Value
+				origins(v, map[ssa.Value]bool{}, &os)
+				for _, o := range os {
+					if call, ok := o.(*ssa.Call); ok && strings.Contains(p.Desc(call.Call.Value, nil), "RequestContextMiddleware(") && len(call.Call.Args) == 1 {
+						checkHandedOn(call.Call.Args[0], x, "the handler wrapped by the context middleware")
+					} else {
+						checkHandedOn(o, x, "the handler returned")
+					}
+				}
+			}
+		case ssa.CallInstruction:
+			// the balancer handed to any other function as a handler
+			if x == ssa.CallInstruction(build) {
+				return
+			}
+			for _, a := range x.Common().Args {
+				if isLB(a) {
+					if _, isIface := a.Type().Underlying().(*types.Interface); isIface {
+						if strings.Contains(p.Desc(x.Common().Value, nil), "RequestContextMiddleware(") {
+							continue
+						}
+						bad = append(bad, p.InstrPos(x)+": the balancer is handed to "+CalleeName(x)+" as a handler besides being the base of the chain: requests that reach it that way skip every plugin")
+					}
+				}
+			}
+		}
+	})
+	if n == 0 {
+		c.Undecided(rule, construct, p.Pos(bh.Pos()), "no success return found")
+		return
+	}
+	if len(bad) == 0 {
+		c.Pass(rule, construct, p.Pos(bh.Pos()), "the balancer is the base of BuildChain and otherwise only the no-plugin fallback; what is handed on is BuildChain's result")
+	} else {
+		c.Fail(rule, construct, p.Pos(bh.Pos()), bad[0], bad...)
+	}
+}
+
 // ---- C17 -----------------------------------------------------------------------------------------
 
 func checkC17(c *Ctx) {
@@ -375,6 +616,7 @@ func checkC17(c *Ctx) {
 	c.Clause("after a handler wrote an error response (status ≥ 400) it never delegates to the next handler / the proxy (all middleware-shaped functions)")
 	c.Clause("BuildChain wraps h = mw(h) once per element, iterating from the last index down to 0, uniformly in the element")
 	c.Clause("registered plugin names are distinct constants, registered from init functions only")
+	c.Clause("with plugins configured every request reaches the balancer through the chain: the handler builder uses the balancer only as BuildChain's base (and as the no-plugin fallback) and hands on BuildChain's own result")
 	c.NotDecided("run-time nesting for specific permutations (argued from the uniform loop shape, not enumerated)")
 
 	bc := p.Fn("internal/plugins", "", "BuildChain")
@@ -445,6 +687,7 @@ func checkC17(c *Ctx) {
 			return ""
 		})
 	c.mainFatal()
+	c.chainGuardsEveryRequest()
 
 	// 2. factories validate
 	nAss := 0
@@ -1252,4 +1495,47 @@ func (c *Ctx) credentialNonEmpty() {
 		})
 	}
 	c.Floor("credential-nonempty", n, 1, "header-equals-secret comparisons in plugins")
+}
+
+// singleFreshElement: v is `[]T{x}` — a fresh one-element array sliced in full — and x is returned;
+// nil otherwise.
+func singleFreshElement(v ssa.Value) ssa.Value {
+	sl, ok := v.(*ssa.Slice)
+	if !ok || sl.Low != nil || sl.High != nil || sl.Max != nil {
+		return nil
+	}
+	a, ok := sl.X.(*ssa.Alloc)
+	if !ok {
+		return nil
+	}
+	arr, ok := a.Type().Underlying().(*types.Pointer).Elem().Underlying().(*types.Array)
+	if !ok || arr.Len() != 1 {
+		return nil
+	}
+	var elem ssa.Value
+	if refs := a.Referrers(); refs != nil {
+		for _, r := range *refs {
+			if ia, ok := r.(*ssa.IndexAddr); ok && ia.Referrers() != nil {
+				for _, u := range *ia.Referrers() {
+					if st, ok := u.(*ssa.Store); ok && st.Addr == ssa.Value(ia) {
+						elem = st.Val
+					}
+				}
+			}
+		}
+	}
+	return elem
+}
+
+// headerValueOf: the value a header operation item stores (Set/Add call, or direct map assignment).
+func headerValueOf(in ssa.Instruction) ssa.Value {
+	switch x := in.(type) {
+	case ssa.CallInstruction:
+		if args := x.Common().Args; len(args) > 2 {
+			return args[2]
+		}
+	case *ssa.MapUpdate:
+		return singleFreshElement(x.Value)
+	}
+	return nil
 }
